@@ -20,6 +20,7 @@ func init() {
 			"R1": "for every non-stop call site of a may-demote function: after removing the CFG edges that carry a justification literal the site is unreachable from the function entry, or every call site of the enclosing function is justified (recursively); acquisition failures (errors of Create / attemptAcquire) are not justifications",
 			"R2": "see C01-R4",
 			"R3": "see C16-R1 (TTL < 3*H is rejected)",
+			"R5": "the refresh ticker's period is cfg.HeartbeatInterval (C03-R8, shared): together with R3 the record is refreshed three times per TTL",
 			"R4": "the refresh attempt's time-out expression is max(H/2, 1s) (C03-R1, shared): never below H/2, so latencies below H/2 cause no refresh failure",
 		},
 	})
@@ -173,6 +174,8 @@ func checkC07(c *Ctx) {
 	// R4: shared with C03-R1: the per-attempt time-out is never shorter than half a heartbeat
 	// interval (a store that answers within H/2 must not produce refresh failures)
 	attemptTimeoutRule(c, "R4")
+	// R5: shared with C03-R8: refreshes are issued every HeartbeatInterval (with TTL >= 3H, R3)
+	refreshPeriodRule(c, "R5")
 	// R2 shared with C01-R4
 	ownRevisionRule(c, "R2")
 	// R3 shared with C16-R1: the TTL margin cube is in the reject table
